@@ -25,7 +25,7 @@ class BitBuf(object):
 
     def put_signmag(self, value, width):
         mag = abs(value)
-        if width < 2 or mag >> (width - 1):
+        if width < 1 or mag >> (width - 1):      # width 1: the sign bit alone, magnitude 0
             raise RefBitsError('sign-magnitude value %r does not fit %r bits' % (value, width))
         self.put(((1 if value < 0 else 0) << (width - 1)) | mag, width)
 
